@@ -79,7 +79,7 @@ def main():
                     % (r.get('skipped'),),
             'bound': '%d files' % r['evaluations'],
             'evaluations': r['evaluations'],
-            'distinct_nontrivial': r['evaluations']})
+            'distinct_nontrivial': r.get('distinct_nontrivial', 0)})
         if r['witness']:
             chk.report_violation('bounded.reserialise',
                                  {'witness': r['witness']}, True,
